@@ -178,6 +178,17 @@ MergedOutcome(s, b, v, c, ov, ig, cm) ==
 \* what the functor reports as its arguments (sym_init_args): specified value, else the default, else MISSING (0)
 Reported(s, b) == [p \in Named(s) |-> IF p \in DOMAIN b THEN b[p] ELSE IF HasDefault(s, p) THEN Default(p) ELSE 0]
 
+(* Symbolization with an explicit value spec for parameter p (pg.functor([(p, spec)]), pg.symbolize(f, [..]),      *)
+(* pg.wrap(cls, [..])).  Documented: a spec whose default conflicts with the callable's own default is refused       *)
+(* (ValueError); otherwise the callable's default stands, i.e. the annotated callable binds exactly like `s`.         *)
+SpecModes == {"nodefault", "same", "noneable", "conflict"}
+SpecModeOK(s, p, m) == p \in Named(s) /\ (m = "same" => HasDefault(s, p))
+\* ("either": a default given for a parameter that has NO default in the callable - the documentation only speaks of
+\* two defaults that disagree; today a noneable spec loses its default silently, another one is refused: don't-care,
+\* but an accepted annotation must still leave the parameter required.)
+AnnotateOutcome(s, p, m) == IF m # "conflict" THEN "accepted" ELSE IF HasDefault(s, p) THEN "refused" ELSE "either"
+AnnotatedSig(s, p, m) == s
+
 (* Rebind: an ordered list of entries <<kind, name>> with distinct targets *)
 EntryOK(s, b, e) == /\ e[2] \in Named(s)
                     /\ (e[1] = "in") => (e[2] \in DOMAIN b /\ IsBox(b[e[2]]))
